@@ -677,4 +677,72 @@ example :
   exact ⟨by simp [script, First.FirstPageDecides], by decide⟩
 
 
+/-! ## Cancellation at ANY moment (`Proofs/C15Cancel.lean`): with a prefetch pending, running or done, before an
+    Iter(), between pages — the invariant `Hist.K` survives every step of every history -/
+
+open Paging.Hist in
+/-- **Cancelling a context never truncates a result silently, whenever it happens.** For EVERY history on one
+    Query object — the steps of `C15_iter_independent_of_rebind` AND cancellations of caller contexts at any
+    moment, in any order with prefetch completions, Scans and further Iter() calls — every iterator with automatic
+    paging has, at every moment, handed over an initial segment of its snapshot's result (in order, each row
+    once: a cancellation loses no row of a page already fetched and duplicates none), and an iterator that has
+    ended WITHOUT an error has handed over the whole result and sent every request of the full iteration. So a
+    cancelled fetch always surfaces as the iteration's error, never as an early normal end. -/
+theorem C15_history_cancel_no_truncation (srv : Nat → Bytes → List Reply) (ppOf : Int → Nat → Nat)
+    (w0 : World) (h : List Step) (h0 : w0.its = []) :
+    ∀ it ∈ (exec srv ppOf w0 h).its, it.snap.disableAutoPage = false →
+      it.out <+: Spec.rows it.script ∧
+      (finished it → it.cur.err = none →
+        it.out = Spec.rows it.script ∧ Spec.err it.script = none ∧
+        it.reqs.filter Req.isExec = (run (ppOf it.snap.pf) it.script false it.snap).reqs.filter Req.isExec) := by
+  intro it hit hq
+  have hkw : KW ppOf w0 := by intro y hy; rw [h0] at hy; cases hy
+  have hk := exec_KW srv ppOf h w0 hkw it hit
+  have hr := K_rows ppOf _ it hk
+  have hs := C15_session_rows (ppOf it.snap.pf) it.script false it.snap hq
+  have ht : (target ppOf it).1 = Spec.rows it.script := hs.1
+  refine ⟨by rw [← ht]; exact hr.1, ?_⟩
+  intro hfin he
+  have h2 := hr.2 hfin he
+  refine ⟨by rw [← ht]; exact h2.1, ?_, h2.2⟩
+  -- ended without error and on the whole result: the specification has no error either
+  rcases hk with hon | ⟨⟨f, hf⟩, _⟩ | ⟨_, hnx, _, _⟩
+  · rw [tot_finished ppOf it hfin] at hon
+    have : it.cur.err = (target ppOf it).2.2 := by rw [← hon]
+    rw [← hs.2]
+    exact this.symm.trans he
+  · rw [he] at hf; cases hf
+  · unfold finished at hfin
+    rcases hfin with h | ⟨_, h⟩
+    · rw [he] at h; cases h
+    · rw [h] at hnx; cases hnx
+
+open Paging.Hist Paging.Walk in
+/-- the same for a walk of one iterator with the query's context cancelled anywhere in between (the walk tier's
+    `x` steps: after the prefetch was awaited, or with none started) -/
+theorem C15_walk_cancel_no_truncation (ppOf : Int → Nat → Nat) (script : List Reply) (q : Qry) (steps : List Walk.StepX)
+    (hq : q.disableAutoPage = false) :
+    let w := Walk.execX ppOf (Walk.start ppOf script q) steps
+    w.it.out <+: Spec.rows script ∧ (finished w.it → w.it.cur.err = none → w.it.out = Spec.rows script) := by
+  intro w
+  have hk := execX_WK ppOf _ steps _ (start_WK ppOf script q)
+  have hr := K_rows ppOf _ w.it hk
+  have hs := (C15_session_rows (ppOf q.pf) script false q hq).1
+  simp only [obs3] at hr
+  rw [hs] at hr
+  exact ⟨hr.1, fun hf he => (hr.2 hf he).1⟩
+
+/-- non-vacuity: three pages; two rows of page 1 taken, its prefetch completes (page 2 is in hand), THEN the
+    context is cancelled: the drain hands over the rest of page 1 and all of page 2 and ends with `context
+    canceled` — rows 1..5 of 1..6, a prefix, not a normal end; two requests were sent, none for page 3 -/
+example :
+    let q : Qry := { ident := 1, prepared := false, skipMeta := false, pageSize := 0, pageState := [], disableAutoPage := false, ctx := some 1 }
+    let script : List Reply := [.page [1, 2, 3] (some [7]), .page [4, 5] (some [8]), .page [6] none]
+    let ppOf : Int → Nat → Nat := fun _ n => n / 2
+    let w := Walk.execX ppOf (Walk.start ppOf script q)
+      [.base (.scan .scan 2), .base .arrive, .cancel 1, .base (.scan .scan 9)]
+    w.it.out = [1, 2, 3, 4, 5] ∧ w.it.cur.err = some .ctx ∧ w.it.reqs.length = 2 := by
+  decide
+
+
 end C15
